@@ -5,6 +5,7 @@ import (
 	"encoding/json"
 	"fmt"
 	"math/big"
+	"os"
 	"testing"
 	"testing/synctest"
 	"time"
@@ -20,7 +21,7 @@ import (
 // RecSc is a recworld scenario (C13): a live stream with inter-arrival times on the
 // driver's virtual clock is recorded into a track.
 type RecSc struct {
-	Via    string   `json:"via"` // "track": Track.RecordFrom; "smf": SMF.RecordFrom
+	Via    string   `json:"via"` // "track": Track.RecordFrom; "smf": SMF.RecordFrom; "file": smf.RecordTo (resolution is the default 960)
 	BPMx10 int      `json:"bpm_x10"`
 	Res    uint16   `json:"resolution"`
 	Stream core.Hex `json:"stream"`
@@ -51,8 +52,14 @@ func (recWorld) Gen(seed uint64, tier string) core.Scenario {
 	if r.Chance(1, 3) {
 		s.Via = "smf"
 	}
+	if r.Chance(1, 10) {
+		s.Via = "file"
+	}
 	s.BPMx10 = r.PickInt(200, 600, 1200, 1205, 1333, 2400, 4000, r.Range(200, 4000))
 	s.Res = uint16(r.PickInt(24, 96, 480, 960, 15360, r.Range(24, 15360)))
+	if s.Via == "file" {
+		s.Res = 960 // RecordTo records into smf.New(), whose resolution is the default
+	}
 	all := LiveOpts{ActiveSense: true, TimeCode: true, SysEx: true, BufSize: 0}
 	n := r.PickInt(1, 2, 4, 8, 20, 50)
 	if tier == "thorough" && r.Chance(1, 5) {
@@ -179,7 +186,7 @@ func (s *RecSc) Shrinks(try0 func(core.Scenario) bool) bool {
 			}
 		}
 	}
-	if s.Via == "smf" {
+	if s.Via != "track" {
 		c := *s
 		c.Via = "track"
 		if try(&c) {
@@ -260,9 +267,19 @@ func (s *RecSc) Run(env *core.Env, st *core.Stats) (vs []core.Violation) {
 			panic(err)
 		}
 		var stop func()
+		var stopFile func() error
+		path := ""
 		file = smf.New()
 		file.TimeFormat = smf.MetricTicks(s.Res)
-		if s.Via == "smf" {
+		if s.Via == "file" {
+			path = tempDir(env) + "/rec.mid"
+			stopFile, recErr = smf.RecordTo(in, bpm, path)
+			stop = func() {
+				if err := stopFile(); err != nil {
+					panic(fmt.Sprintf("RecordTo stop: %v", err))
+				}
+			}
+		} else if s.Via == "smf" {
 			stop, recErr = file.RecordFrom(in, bpm)
 		} else {
 			stop, recErr = track.RecordFrom(in, smf.MetricTicks(s.Res), bpm)
@@ -279,7 +296,18 @@ func (s *RecSc) Run(env *core.Env, st *core.Stats) (vs []core.Violation) {
 			pos += n
 		}
 		stop()
-		if s.Via == "smf" {
+		if s.Via == "file" {
+			f, err := smf.ReadFile(path)
+			os.Remove(path)
+			if err != nil {
+				panic(fmt.Sprintf("the file written by RecordTo cannot be read: %v", err))
+			}
+			if len(f.Tracks) != 1 {
+				panic(fmt.Sprintf("RecordTo wrote %d tracks", len(f.Tracks)))
+			}
+			file = f
+			track = f.Tracks[0]
+		} else if s.Via == "smf" {
 			if len(file.Tracks) != 1 {
 				panic(fmt.Sprintf("SMF.RecordFrom left %d tracks", len(file.Tracks)))
 			}
